@@ -28,6 +28,7 @@ import (
 	"sort"
 	"strconv"
 	"strings"
+	"sync"
 	"testing"
 	"time"
 
@@ -117,6 +118,7 @@ type c16CarCase struct {
 	Name     string
 	Opts     cargen.Opts
 	NTargets int
+	Targets  []c16Target // when set: exactly these targets
 }
 
 func c16CarCases(seed int64) []c16CarCase {
@@ -148,7 +150,7 @@ func c16CarCases(seed int64) []c16CarCase {
 	}
 	if ev.Thorough() {
 		// more blocks than the per-piece link limit (432000/18 = 24000): a new piece is forced by the limit
-		cs = append(cs, c16CarCase{Name: "link-limit", NTargets: 3, Opts: cargen.Opts{Epoch: 9, Seed: seed + 6, NSlots: 24005, EmptyBlockOneIn: 1, MaxEntries: 1, MaxTx: 1}})
+		cs = append(cs, c16CarCase{Name: "link-limit", Targets: []c16Target{{Size: 1 << 40, Why: "one piece by size; the link limit forces a second"}}, Opts: cargen.Opts{Epoch: 9, Seed: seed + 6, NSlots: 24005, EmptyBlockOneIn: 1, MaxEntries: 1, MaxTx: 1}})
 	}
 	return cs
 }
@@ -295,7 +297,11 @@ func c16Vio(rec *ev.Recorder, key, detail string, replay any) {
 
 func TestVerifC16Split(t *testing.T) {
 	rec := ev.New("C16", "split")
-	defer rec.Flush()
+	defer func() {
+		if err := rec.Flush(); err != nil {
+			t.Errorf("evidence fragment not written: %v", err)
+		}
+	}()
 	rec.Rule("distinct = (CAR layout signature, target size) splits that produced >= 2 pieces and whose pieces were all parsed and compared; counter splits_one_piece counts the single-piece splits")
 	root, err := os.MkdirTemp(ev.Scratch(), "c16s")
 	if err != nil {
@@ -304,6 +310,10 @@ func TestVerifC16Split(t *testing.T) {
 	defer os.RemoveAll(root)
 
 	var rc c16SplitCase
+	if os.Getenv("VERIF_REPLAY") != "" && (!ev.LoadReplay(&rc) || rc.Target.Size <= 0 || rc.Name == "") {
+		rec.Note("replay", "the replay file is not a split case; nothing to do in this part")
+		return
+	}
 	if ev.LoadReplay(&rc) {
 		rec.Distinct("replay")
 		rec.Distinct("replay2")
@@ -340,6 +350,9 @@ func c16RunCar(rec *ev.Recorder, root string, c c16CarCase, forced []c16Target) 
 	rec.Count("car_blocks", len(exp.fams))
 	rec.Count("car_orphan_sections_not_demanded", exp.orphans)
 	targets := forced
+	if targets == nil {
+		targets = c.Targets
+	}
 	if targets == nil {
 		rng := rand.New(rand.NewSource(ev.Seed()*131 + int64(len(c.Name))*17 + c.Opts.Seed))
 		targets = c16Targets(rng, exp, int64(hdrSize), c.NTargets)
@@ -583,6 +596,22 @@ compare:
 	}
 	c16Diagnostics(rec, job, pieces, exp, tg)
 
+	if ok && len(exp.fams) > maxLinks {
+		var per []int
+		for _, pc := range pieces {
+			n := 0
+			for _, s := range pc.secs {
+				if c16Kind(s.Data) == cargen.KindBlock {
+					n++
+				}
+			}
+			per = append(per, n)
+		}
+		if len(per) <= 8 {
+			rec.Note("link_limit_blocks_per_piece", per)
+		}
+		rec.Count("splits_beyond_link_limit", 1)
+	}
 	if ok {
 		if len(pieces) >= 2 {
 			rec.Distinct(fmt.Sprintf("%s|target=%d", m.LayoutSignature(), tg.Size))
@@ -664,23 +693,49 @@ func c16JudgeReader(rec *ev.Recorder, where string, sc c16SplitCase, cp *carlet.
 	for i, cf := range cp.CarPieces {
 		byName[cf.Name] = pieces[i]
 	}
-	// observation: the same metadata with the local-file reader
-	if scr, err := splitcarfetcher.NewSplitCarReader(cp, func(cf carlet.CarFile) (splitcarfetcher.ReaderAtCloserSize, error) {
-		return splitcarfetcher.NewFileSplitCarReader(byName[cf.Name].path)
-	}); err != nil {
-		rec.Count("diag_own_local_pieces_rejected_by_NewSplitCarReader", 1)
-	} else {
-		scr.Close()
+	if len(pieces) > 500 {
+		rec.Count("e2e_skipped_more_than_500_pieces", 1)
+		return
 	}
+	// observation: the same metadata with the local-file reader
+	{
+		var opened []*splitcarfetcher.FileSplitCarReader
+		var mu sync.Mutex
+		scr, err := splitcarfetcher.NewSplitCarReader(cp, func(cf carlet.CarFile) (splitcarfetcher.ReaderAtCloserSize, error) {
+			r, err := splitcarfetcher.NewFileSplitCarReader(byName[cf.Name].path)
+			if err == nil {
+				mu.Lock()
+				opened = append(opened, r)
+				mu.Unlock()
+			}
+			return r, err
+		})
+		if err != nil {
+			rec.Count("diag_own_local_pieces_rejected_by_NewSplitCarReader", 1)
+			for _, r := range opened {
+				r.Close() // the constructor does not close what it opened when it fails
+			}
+		} else {
+			scr.Close()
+		}
+	}
+	var openedFiles []*os.File
+	var omu sync.Mutex
 	scr, err := splitcarfetcher.NewSplitCarReader(cp, func(cf carlet.CarFile) (splitcarfetcher.ReaderAtCloserSize, error) {
 		pc := byName[cf.Name]
 		f, err := os.Open(pc.path)
 		if err != nil {
 			return nil, err
 		}
+		omu.Lock()
+		openedFiles = append(openedFiles, f)
+		omu.Unlock()
 		return &c16ReadOnlyPiece{f: f, size: int64(len(pc.bytes))}, nil
 	})
 	if err != nil {
+		for _, f := range openedFiles {
+			f.Close()
+		}
 		c16Vio(rec, "split-e2e/reader-rejects-written-pieces", fmt.Sprintf("%s: %v", where, err), sc)
 		return
 	}
